@@ -252,6 +252,44 @@ Theorem C05_tree_model_passes_checker : forall K Q, tree_prop K Q (tree_model K 
 Proof. exact model_passes_tree. Qed.
 Print Assumptions C05_tree_model_passes_checker.
 
+(* ---- histories: the models are pure, so every step of a sequence is judged exactly like a standalone call ---- *)
+(* the answer to a call after ANY history is the answer of the standalone call (same for any two histories) *)
+Theorem C05_model_answer_is_history_independent : forall h1 h2 c,
+  nth (length h1) (eval_seq (h1 ++ [c])) Err = eval_call c /\ nth (length h2) (eval_seq (h2 ++ [c])) Err = eval_call c.
+Proof. exact eval_seq_history_independent. Qed.
+Print Assumptions C05_model_answer_is_history_independent.
+Theorem C05_model_sequence_is_stepwise : forall h cs, eval_seq (h ++ cs) = eval_seq h ++ eval_seq cs.
+Proof. exact eval_seq_app. Qed.
+Print Assumptions C05_model_sequence_is_stepwise.
+(* the dispatch entry OverlapSequence judges a sequence after any prefix by the verdicts of its own steps *)
+Theorem C05_sequence_verdicts_are_stepwise : forall h oh cs os, length h = length oh ->
+  run_calls (h ++ cs) (oh ++ os) = match run_calls h oh, run_calls cs os with Some a, Some b => Some (a ++ b) | _, _ => None end.
+Proof. exact run_calls_app. Qed.
+Print Assumptions C05_sequence_verdicts_are_stepwise.
+(* every spatial call builds its tree from the empty tree: nothing stored by an earlier call can be seen *)
+Theorem C05_spatial_call_starts_from_the_empty_tree : forall l1 l2,
+  sp_array l1 l2 = match sp_insert l1 rempty with Err => Err | Ok t => sp_query (match l1 with [] => true | _ => false end) t l2 end.
+Proof. exact sp_array_starts_from_empty_tree. Qed.
+Print Assumptions C05_spatial_call_starts_from_the_empty_tree.
+(* the one stateful model, the radix tree (entry RadixOps: Append / IsOverlap in any interleaving on one tree): every query is answered by the keys
+   appended before it, through the ancestor-or-equal relation on the three coordinates — the trie specification the overlap proof uses
+   (Radix.stored_append, twf_append, search_spec, Digits.prefix_iff_anc), now under every history; in particular duplicates, the order of the appends
+   and earlier queries are irrelevant *)
+Theorem C05_radix_ops_meet_the_trie_specification : forall ops, (forall o, In o ops -> in_range4 (rop_key o)) ->
+  run_ops rempty ops = ops_ref [] ops.
+Proof. exact run_ops_spec_empty. Qed.
+Print Assumptions C05_radix_ops_meet_the_trie_specification.
+Theorem C05_radix_ops_after_any_stored_keys : forall ops seen, (forall k, In k seen -> in_range4 k) -> (forall o, In o ops -> in_range4 (rop_key o)) ->
+  run_ops (rbuild (map tkey seen)) ops = ops_ref seen ops.
+Proof. exact run_ops_spec. Qed.
+Print Assumptions C05_radix_ops_after_any_stored_keys.
+Theorem C05_radix_answers_depend_on_the_stored_key_set_only : forall ops s1 s2, (forall k, In k s1 <-> In k s2) -> ops_ref s1 ops = ops_ref s2 ops.
+Proof. exact ops_ref_set_only. Qed.
+Print Assumptions C05_radix_answers_depend_on_the_stored_key_set_only.
+Theorem C05_radix_ops_model_passes_checker : forall ops, forallb rop_ok ops = true -> list_eqb Bool.eqb (ops_ref [] ops) (run_ops rempty ops) = true.
+Proof. exact model_passes_radix_ops. Qed.
+Print Assumptions C05_radix_ops_model_passes_checker.
+
 (* ---- non-vacuity, and the inputs on which the independently seeded changes differ from the code ---- *)
 Example C05_ex_domain : sdom (mk 26 0 0 26 (-5)) /\ valid (mk 3 7 0 4 (-16)) /\ altdom 35 (- 2 ^ 34) /\ ~ altdom 3 4.
 Proof. unfold sdom, valid, altdom; cbn. lia. Qed.
@@ -272,6 +310,15 @@ Example C05_ex_child_before_parent :   (* the parent follows its own descendant 
   sp_overlap "-9223372036854775808/0/0/0" "1/0/0/0" = Err.
 Proof. vm_compute. repeat split. Qed.
 
+(* histories: the same call answered identically after an unrelated call, after an invalid call and after itself; an operation sequence with a
+   duplicate insert, the empty key and a query between the inserts *)
+Example C05_ex_histories :
+  eval_seq [CSpArray ["1/0/0/0"] ["1/0/1/1"]; CSpPair "3/4/0/0" "3/3/0/0"; CSpArray ["16/0/58198/25804"; "13/0/7274/3225"] ["16/0/58199/25804"];
+            CSpArray ["16/0/58198/25804"; "13/0/7274/3225"] ["16/0/58199/25804"]; CExtPair "20/5/7/25/-2" "20/5/7/24/-1"]
+    = [Ok false; Err; Ok true; Ok true; Ok true] /\
+  run_ops rempty [RAppend (2, 1, 2, 3); RQuery (1, 0, 1, 1); RQuery (1, 1, 1, 1); RAppend (2, 1, 2, 3); RAppend (3, 7, 0, 0);
+                  RQuery (2, 3, 0, 0); RAppend (0, 0, 0, 0); RQuery (5, 31, 0, 31)] = [true; false; true; true].
+Proof. split; vm_compute; reflexivity. Qed.
 Close Scope string_scope.
 (* ---- tie to the source by regeneration (DESIGN.md 4.2): the integer kernels the detector stands on, translated from /repo's current source on
    every run (generated/Generated.v), are the models the theorems above are stated on. The detector's own control flow (min of the zooms, `[0]`
